@@ -86,6 +86,8 @@ enum Group {
     Sil { points: Vec<Vec<f64>>, k: usize, perms: &'static str },
     /// first column fixed, other columns = every vector over the alphabet
     Pearson { float: &'static str, alphabet: Vec<f64>, first: Vec<f64>, ncols: usize, perms: &'static str },
+    /// explicitly listed cases (the structured long-vector families)
+    Explicit { cases: Vec<Case> },
 }
 
 const SIL_LABEL_VALUES: [usize; 3] = [5, 2, 9];
@@ -107,6 +109,7 @@ impl Group {
             }
             Group::Sil { points, k, .. } => (*k as u64).pow(points.len() as u32),
             Group::Pearson { alphabet, first, ncols, .. } => (alphabet.len() as u64).pow((first.len() * (ncols - 1)) as u32),
+            Group::Explicit { cases } => cases.len() as u64,
         }
     }
 
@@ -147,6 +150,11 @@ impl Group {
                     f(Case::Silhouette { points: points.clone(), labels: l.iter().map(|&i| SIL_LABEL_VALUES[i]).collect(), perms: perms.to_string() });
                 }
             }
+            Group::Explicit { cases } => {
+                for c in cases {
+                    f(c.clone());
+                }
+            }
             Group::Pearson { float, alphabet, first, ncols, perms } => {
                 let n = first.len();
                 for rest in en::sequences(n * (ncols - 1), alphabet.len()) {
@@ -170,6 +178,7 @@ fn main() {
          (b) scores: every score vector of length 1..5 / 1..6 over {0,.25,.5,.75,1} and of length 1..3 / 1..4 over the clip-boundary alphabet {0,1e-8,.5,1-2^-24,1} x every boolean truth vector; \
          (c) regression: every prediction vector x every non-constant truth vector of length 2..4 over {-2,-1,0,.5,1,3} in f64 (thorough: also length 5 over {-2,0,.5,1,3}; f32: 2..3 / 2..4), plus a 2-column matrix case for n<=3 / n<=4; \
          (d) silhouette: every multiset of 4..6 / 4..7 points of {0..4} (multiplicity <=2) and every 4..5 / 4..6 subset of the 3x3 lattice x every labelling with 2 (n<=5) or 3 (n>=6) label values; \
+         (c2/b2) structured long vectors: regression vectors of every length 6..40 / 6..72 whose absolute errors are every strided permutation (stride coprime to n, every offset [every third in quick]) of n distinct values, and score vectors of length 6..20 / 6..32 with heavy ties ((i*s+o) mod m)/m, m in {2,3,4,7}; \
          (e) Pearson: every matrix with 2..4 rows and 2..3 columns (quick) / up to 5 rows or 4 columns (thorough) over {-1,0,2} (and {-1,0,.5,2}). \
          Every case is additionally re-run under permutations applied to both sides: all n!-1 for small n (usize/String labels n<=4, bool n<=4/5, scores n<=4/5, regression n<=3/4, silhouette n<=4/5, Pearson rows<=4), the generating set {swap(0,1), rotation, reversal} beyond (the sweep visits every input, so invariance under generators at every input implies invariance under every permutation); quick runs the longest regression length without explicit permutations. \
          evaluations = distinct in-domain inputs run through all of their metrics; non-trivial = labels: >=2 classes and prediction != truth; scores: 0 < AUC < 1; regression: prediction != truth; silhouette: every in-domain labelling; Pearson: some |r| < 1.",
@@ -248,6 +257,66 @@ fn main() {
                 groups.push(Group::Regr { float, alphabet: alpha.clone(), pred: p.iter().map(|&i| alpha[i]).collect(), perms, forms: n <= 3, multi });
             }
         }
+    }
+
+    // (c2) long structured vectors (lengths beyond the exhaustive alphabets, where sorting / selection
+    // algorithms switch strategy): for every length n and every stride s coprime to n and every offset o,
+    // the absolute errors are the strided permutation 0.25 * (1 + (i*s + o) mod n) of n distinct values,
+    // with alternating signs on a non-constant truth pattern. Complete over (n, s, o) within the bound.
+    let gcd = |mut a: usize, mut b: usize| {
+        while b != 0 {
+            let t = a % b;
+            a = b;
+            b = t;
+        }
+        a
+    };
+    let long_max = ctx.pick(40usize, 72usize);
+    for n in 6..=long_max {
+        for float in ["f64", "f32"] {
+            let mut cases = Vec::new();
+            for st in 1..n {
+                if gcd(st, n) != 1 {
+                    continue;
+                }
+                for o in 0..n {
+                    if ctx.quick() && o % 3 != 0 {
+                        continue;
+                    }
+                    let truth: Vec<f64> = (0..n).map(|i| (i % 5) as f64 * 0.5 + 1.0).collect();
+                    let pred: Vec<f64> = (0..n)
+                        .map(|i| {
+                            let e = 0.25 * (1 + (i * st + o) % n) as f64;
+                            if (i * st) % 2 == 0 {
+                                truth[i] + e
+                            } else {
+                                truth[i] - e
+                            }
+                        })
+                        .collect();
+                    cases.push(Case::Regr { float: float.to_string(), pred, truth, perms: "gen".to_string(), forms: false });
+                }
+            }
+            groups.push(Group::Explicit { cases });
+        }
+    }
+    // (b2) long structured score vectors with many ties: scores ((i*s + o) mod m) / m for m < n, truth
+    // pattern i mod 3 == 0, every (n, m, s coprime to n)
+    for n in 6..=ctx.pick(20usize, 32usize) {
+        let mut cases = Vec::new();
+        for m in [2usize, 3, 4, 7] {
+            for st in 1..n {
+                if gcd(st, n) != 1 {
+                    continue;
+                }
+                for o in 0..m {
+                    let scores: Vec<f32> = (0..n).map(|i| ((i * st + o) % m) as f32 / m as f32).collect();
+                    let truth: Vec<bool> = (0..n).map(|i| i % 3 == 0).collect();
+                    cases.push(Case::Scores { scores, truth, perms: "gen".to_string() });
+                }
+            }
+        }
+        groups.push(Group::Explicit { cases });
     }
 
     // (d) silhouette
@@ -343,6 +412,7 @@ fn main() {
                 Group::Sil { .. } => 5,
                 Group::Pearson { .. } => 6,
                 Group::LenMismatch => 7,
+                Group::Explicit { .. } => 3,
             }
         };
         let by_fam: Vec<Vec<&Group>> = (0..7).map(|f| groups.iter().filter(|g| fam(g) == f).collect()).collect();
